@@ -147,3 +147,57 @@ def agree(m, J, s, rawa, rawb, kinds, mf, depth=0):
             d = mf(mdl); d['oracle'] = 'C14: a == b, yet %s answers differently on a (after its history) and on b' % k
             J.cex.append(d); return
     J.discharged += 1
+
+
+def eq_stable_job(jid, tree_a, tree_b, dyn=False, history_a=('hash',), history_b=('hash',), flavour='mir'):
+    """C14: 'neither equality nor the hash of a value changes because an observer was called on it or because a cache was filled':
+    a == b and both hash streams are taken BEFORE and AFTER an observer history on a and on b; the answers must not change."""
+    idx = api.load(flavour); m = api.machine(idx, loop_bound=64); J = Job(jid, m)
+    st = State()
+    sym = streams.Sym(st, streams.ALPHA['q'])
+    ra, sa = streams.build(idx, sym, tree_a, m, False)
+    rb, sb = streams.build(idx, sym, tree_b, m, False)
+    st.extra['a'] = ra if isinstance(ra, Ref) else Ref(Cell(ra))
+    st.extra['b'] = rb if isinstance(rb, Ref) else Ref(Cell(rb))
+    ta, tb = streams.type_name(streams.unbox(tree_a)), streams.type_name(streams.unbox(tree_b))
+    if ta != tb and not dyn: raise Inconclusive('different static types need dyn=True')
+    mf = lambda mdl: {'family': 'eqhash', 'a': streams.concretize_spec(mdl, sa), 'b': streams.concretize_spec(mdl, sb), 'relation': 'stable', 'dyn': dyn,
+                      'history': list(history_a), 'history_b': list(history_b)}
+    def call(s, name, args):
+        outs = []
+        for kind, s2, v in api.call(m, s, name, args):
+            J.paths += 1
+            if kind != 'ret': J.fail_path(m, s2, 'C14/C17: %s panics: %r' % (name, v), mf)
+            else: outs.append((s2, v))
+        return outs
+    def hash_of(s, key, ty):
+        s.extra['h'] = Ref(Cell(HasherV()))
+        name = ('<dyn source::Source as Hash>::hash::<HasherV>' if dyn else '<%s as Hash>::hash::<HasherV>' % ty)
+        return [(s2, list(sv(s2.extra['h']).log)) for s2, _ in call(s, name, [s.extra[key], s.extra['h']])]
+    eqname = '<dyn source::Source as PartialEq>::eq' if dyn else '<%s as PartialEq>::eq' % ta
+    def run_history(s, key, ty, spec, ops):
+        sts = [s]
+        for op in ops:
+            nxt = []
+            for s2 in sts:
+                s2.extra['root'] = s2.extra[key]
+                nxt += [s3 for s3, _ in streams.observe(m, J, s2, None, ty, spec, [op], mf)]
+            sts = nxt
+        return sts
+    for s1, ab0 in call(st, eqname, [st.extra['a'], st.extra['b']]):
+        for s2, la0 in hash_of(s1, 'a', ta):
+            for s3, lb0 in hash_of(s2, 'b', tb):
+                for s4 in run_history(s3, 'a', ta, sa, history_a):
+                    for s5 in run_history(s4, 'b', tb, sb, history_b):
+                        for s6, ab1 in call(s5, eqname, [s5.extra['a'], s5.extra['b']]):
+                            for s7, ba1 in call(s6, eqname, [s6.extra['b'], s6.extra['a']]):
+                                for s8, la1 in hash_of(s7, 'a', ta):
+                                    for s9, lb1 in hash_of(s8, 'b', tb):
+                                        J.prove(m, s9, zb(ab0) == zb(ab1), 'C14: a == b changed its answer after observers (%s on a, %s on b) were called' % (list(history_a), list(history_b)), mf)
+                                        J.prove(m, s9, zb(ab1) == zb(ba1), 'C14: a == b and b == a disagree after the observer history', mf)
+                                        J.prove(m, s9, zb(log_eq(la0, la1)), 'C14: the hash of a changed because observers were called', mf)
+                                        J.prove(m, s9, zb(log_eq(lb0, lb1)), 'C14: the hash of b changed because observers were called', mf)
+                                        J.prove(m, s9, z3.Implies(zb(ab1), zb(log_eq(la1, lb1))), 'C14: a == b with different hashes', mf)
+                                        J.see('stable_checked')
+    J.samples.append({'a': tree_a, 'b': tree_b, 'relation': 'stable', 'dyn': dyn, 'history_a': list(history_a), 'history_b': list(history_b)})
+    return J.result(required_witnesses=['stable_checked'])
